@@ -23,7 +23,7 @@ clause → theorem
 * malformed ⇒ InvalidPointer ⇒ MethodNotFound, no mutation ... `malformed_is_not_found`, `malformed_never_mutates`, `invalid_pointer_code`
 * write then read returns the value ......................... `read_after_write`
 * … and changes nothing at unrelated pointers ............... `write_frame`
-* a root write merges the object's keys ..................... `root_write_merges`
+* a root write merges the object's keys ..................... `root_write_merges`, `root_write_keeps_other_keys`, `root_never_callable`
 * an empty body never mutates ............................... `empty_body_never_mutates`
 * callable invoked exactly once, with the body, only at its key `call_exactly_once`
 * mounting only strips the prefix ........................... `mount_strips_only_prefix`, `mount_boundary`
@@ -215,6 +215,13 @@ theorem root_write_merges (r : Bool) (reg : Reg) (p : Ptr) (hp : p = [] ∨ p = 
   · intro v hv
     rw [dispatch_some_of_not_callable r reg p v hc]
     cases v <;> simp_all [Reg.writeAt, J.isObj]
+
+/-- The hypothesis of `root_write_merges` holds in every reachable state: the key `/` is free in the
+fresh registry and no API call ever binds it ("no function can register at the root"). -/
+theorem root_never_callable (r : Bool) :
+    fget ['/'] ({} : Reg).funcs = none ∧
+    ∀ (reg : Reg) (op : Op), fget ['/'] reg.funcs = none → fget ['/'] (reg.apply r op).1.funcs = none :=
+  ⟨rfl, fun reg op h => root_key_free_preserved r reg op h⟩
 
 /-- A key the body does not mention keeps its value under a root write. -/
 theorem root_write_keeps_other_keys (k : Key) (o dst : Obj) (h : ∀ kv ∈ o, kv.1 ≠ k) :
